@@ -707,14 +707,14 @@ func (filter *TrzszFilter) confirmStopTransfer(transfer *trzszTransfer) {
 
 		idx, _, err := prompt.Run()
 
-		if transfer := filter.transfer.Load(); transfer != nil {
-			if err != nil || idx == 2 {
-				transfer.resumeTransferringFiles()
-			} else if idx == 0 {
-				transfer.stopTransferringFiles(false)
-			} else if idx == 1 {
-				transfer.stopTransferringFiles(true)
-			}
+		// the answer is for the transfer that was paused for the question, also when it has meanwhile gone on in the
+		// background (fork) and is no longer the one that owns the terminal
+		if err != nil || idx == 2 {
+			transfer.resumeTransferringFiles()
+		} else if idx == 0 {
+			transfer.stopTransferringFiles(false)
+		} else if idx == 1 {
+			transfer.stopTransferringFiles(true)
 		}
 	}()
 }
